@@ -2,3 +2,4 @@ pub mod pool;
 pub mod c16;
 pub mod eyes;
 pub mod c20;
+pub mod c08;
